@@ -130,6 +130,7 @@ def unaval(j):
 
 
 _ABSENT = object()
+_EITHER = object()
 
 
 def tname(cls):
@@ -1101,6 +1102,10 @@ def norm_requested(kw):
             pass                      # go into the column keywords, checked by col_requested
         else:
             out[k] = v
+    if 'nullable' in kw and 'nillable' in kw and kw['nullable'] != kw['nillable']:
+        # a contradictory request (the two spellings of one property, class bodies assert they agree): the keyword loop
+        # lets the later one win and a protocol's type_attrs reorder the keywords - either value is what was asked for
+        out['nillable'] = _EITHER
     return out, doc
 
 
@@ -1125,11 +1130,15 @@ def check_exact(ctx, new, src, kw, opk, report):
         doc = d if d is not None else doc
     for k, v in req.items():
         got = getattr(new.Attributes, k, _ABSENT)
+        if v is _EITHER:
+            if got not in (True, False):
+                report('exact:%s:requested:%s' % (opk, k), 'requested both True and False, the derived class has %r' % (got,))
+            continue
         if got is _ABSENT or cval(got) != cval(v):
             report('exact:%s:requested:%s' % (opk, k), 'requested %s=%r, the derived class has %r' % (k, v, None if got is _ABSENT else got))
     if doc is not None and new.Annotations.doc != doc:
         report('exact:%s:doc' % opk, 'requested doc not set')
-    if 'nillable' in req and new.Attributes.nullable != req['nillable']:
+    if 'nillable' in req and new.Attributes.nullable != (new.Attributes.nillable if req['nillable'] is _EITHER else req['nillable']):
         report('exact:%s:requested:nullable' % opk, 'nullable does not follow nillable')
     # column keywords: the source's, plus the requested ones, in a dict of the derived class's own
     want_col = dict((src.Attributes.sqla_column_args or ((), {}))[-1])
@@ -1540,6 +1549,8 @@ class Oracle:
                     if req:
                         for a, v in req.items():
                             got = getattr(x._type_info[nm].Attributes, a, _ABSENT)
+                            if v is _EITHER:
+                                continue
                             if got is _ABSENT or cval(got) != cval(v):
                                 self.report('evolve:delayed-child-attrs', 'child attribute %s=%r given for field %r before it existed '
                                             'is not applied in a variant (%r)' % (a, v, nm, None if got is _ABSENT else got))
